@@ -23,12 +23,21 @@ type oracleProc struct {
 	out *bufio.Reader
 }
 
-var oraclePool = sync.Pool{}
+// free list of idle helper processes (a sync.Pool would drop - and so leak - processes on every GC)
+var (
+	oracleMu   sync.Mutex
+	oracleFree []*oracleProc
+)
 
 func getOracle() *oracleProc {
-	if o, ok := oraclePool.Get().(*oracleProc); ok && o != nil {
+	oracleMu.Lock()
+	if n := len(oracleFree); n > 0 {
+		o := oracleFree[n-1]
+		oracleFree = oracleFree[:n-1]
+		oracleMu.Unlock()
 		return o
 	}
+	oracleMu.Unlock()
 	if len(SchemaOracleCmd) == 0 {
 		return nil
 	}
@@ -39,6 +48,19 @@ func getOracle() *oracleProc {
 		return nil
 	}
 	return &oracleProc{cmd: cmd, in: in, out: bufio.NewReaderSize(out, 1<<20)}
+}
+
+func putOracle(o *oracleProc) {
+	oracleMu.Lock()
+	oracleFree = append(oracleFree, o)
+	oracleMu.Unlock()
+}
+
+// discardOracle ends a helper whose pipe is in an unknown state.
+func discardOracle(o *oracleProc) {
+	o.in.Close()
+	o.cmd.Process.Kill() //nolint:errcheck
+	go o.cmd.Wait()      //nolint:errcheck
 }
 
 // toNative converts an engine value tree (map[string]any / []any / scalars) into Go values under model m.
@@ -125,13 +147,15 @@ func init() {
 			panic(pathAbort{"unsupported: schema oracle not available"})
 		}
 		if _, err := o.in.Write(append(b, '\n')); err != nil {
+			discardOracle(o)
 			panic(pathAbort{"schema oracle write failed"})
 		}
 		line, err := o.out.ReadBytes('\n')
 		if err != nil {
+			discardOracle(o)
 			panic(pathAbort{"schema oracle died"})
 		}
-		oraclePool.Put(o)
+		putOracle(o)
 		var res struct {
 			Ok    bool   `json:"ok"`
 			Err   string `json:"err"`
